@@ -65,6 +65,23 @@ Theorem adjoint_real_branches_agree : forall (T : Type) (NT : Num T) (CT : Conj 
 Proof. exact (@real_reading_agrees). Qed.
 Print Assumptions adjoint_model_is_generated.
 
+(* ProductSpaceOperator as the code stores it (C05/Coo.v): a list of COO triples (row, col, operator) --
+   DUPLICATE (row, col) pairs allowed (the evaluation sums them), empty rows / columns, any block shape -- between
+   unweighted product spaces with components [cs] (domain) and [rs] (range).  [coo_adjoint] exchanges row and
+   column of every triple and takes the adjoint of every entry; it IS the interpretation of the rule regenerated
+   from ProductSpaceOperator.adjoint ([psop_adjoint_is_generated]: which index array goes where, entries adjointed,
+   spaces swapped).  If every entry satisfies the adjoint identity, so does the block operator. *)
+From Verif Require Import C05.Coo.
+Theorem product_space_operator_adjoint : forall (T : Type) (NT : Num T) (CT : Conj T), cring_ok T ->
+  forall (rs cs : list (list T)) (es : list (nat * nat * oexpr T)), Forall (entry_ok rs cs) es ->
+  adj_pair (concat cs) (concat rs) (coo_eval rs cs es) (coo_eval cs rs (coo_adjoint es)).
+Proof. exact (@coo_adjoint_identity). Qed.
+Theorem psop_adjoint_is_generated : forall (T : Type) (NT : Num T) (CT : Conj T) (es : list (nat * nat * oexpr T)),
+  coo_adjoint_gen psop_rule es = coo_adjoint es
+  /\ ps_shape_swapped psop_rule = true /\ ps_domain psop_rule = PRan /\ ps_range psop_rule = PDom.
+Proof. exact (@coo_adjoint_generated). Qed.
+Print Assumptions product_space_operator_adjoint.
+
 (* TRANSFER.  The model the correspondence shards EXECUTE (carriers Q and Q*Q) is the restriction of the model
    the theorems are ABOUT (carriers R and R*R): Q2R (and its componentwise lift Q2C to complex pairs) is a carrier
    homomorphism and commutes with the evaluation of every tree, with [adjoint], and with the evaluation of the
